@@ -625,6 +625,11 @@ func (hs *serverHandshakeState) readFinished(out []byte) error {
 		return errors.New("tls: client's Finished message is incorrect")
 	}
 
+	if c.hand.Len() > 0 {
+		// nothing may follow the peer's Finished in a handshake
+		c.sendAlert(alertUnexpectedMessage)
+		return errors.New("tls: handshake data after the client's Finished message")
+	}
 	hs.finishedHash.Write(clientFinished.marshal())
 	copy(out, verify)
 	return nil
